@@ -1,6 +1,7 @@
 /- `etkmodel`: line-protocol driver running the executable models. -/
 import EtkVerif.Driver.Basic
 import EtkVerif.Driver.HexCmd
+import EtkVerif.Driver.AnnCmd
 open EtkVerif.Driver
 
 def dispatch (line : String) : String :=
@@ -11,6 +12,7 @@ def dispatch (line : String) : String :=
     else if cmd == "ops" then cmdOps args
     else if cmd == "hexr" then cmdHexR args
     else if cmd == "hexw" then cmdHexW args
+    else if cmd == "ann" then cmdAnn args
     else s!"bad-op {cmd}"
   | [] => "bad-op"
 
